@@ -133,6 +133,13 @@ def loads(node):
     return out
 
 
+def _parents(n):
+    cur = getattr(n, '_parent', None)
+    while cur is not None:
+        yield cur
+        cur = getattr(cur, '_parent', None)
+
+
 def check_lattice(ctx):
     prog = ctx.prog
     f = ctx.fn('simulator:py_simulate_model')
@@ -147,6 +154,7 @@ def check_lattice(ctx):
     n_paths = 0
     results = {}
     used = {}
+    ifaces = {}
     for c in lattice():
         en = paths.Enumerator(cond_hook=cond, stmt_hook=stmt, snapshot=True)
         st = initial_state(c, params)
@@ -182,6 +190,23 @@ def check_lattice(ctx):
                 problems.append("local '%s' may be used before assignment at %s on path [%s]"
                                 % (bad[0], ctx.loc('simulator', bad[1]), paths.describe(p, 8)))
                 continue
+            # a numeric conversion of an option value that is an object (a Volume, a Model) or None raises TypeError from inside
+            conv = None
+            for e in p.events:
+                if e.kind not in ('stmt', 'test') or e.state is None or isinstance(e.node, (ast.Try, ast.If, ast.For, ast.While)):
+                    continue
+                if any(isinstance(par_, ast.Try) for par_ in _parents(e.node)):
+                    continue        # inside a try: the entry point handles the failure itself
+                for c_ in ast.walk(e.node):
+                    if isinstance(c_, ast.Call) and isinstance(c_.func, ast.Name) and c_.func.id in ('float', 'int') and len(c_.args) == 1 \
+                            and isinstance(c_.args[0], ast.Name):
+                        v_ = e.state.env.get(c_.args[0].id, paths.TOP)
+                        if isinstance(v_, Obj) or v_ is None:
+                            conv = (src(c_), v_, e.node)
+            if conv:
+                problems.append('`%s` is evaluated with %s = %r at %s: a TypeError from inside, not an error about the options [%s]'
+                                % (conv[0], conv[0][conv[0].index('(') + 1:-1], conv[1], ctx.loc('simulator', conv[2]), paths.describe(p, 6)))
+                continue
             if p.exit == 'raise':
                 outcome.add('explicit-error')
             elif p.exit == 'return':
@@ -189,6 +214,10 @@ def check_lattice(ctx):
                 # which simulator produced the result on this path (the last `Sim = <Class>()` executed)
                 made = [src(e.node.value.func) for e in p.events if e.kind == 'stmt' and isinstance(e.node, ast.Assign) and src(e.node.targets[0]) == 'Sim'
                         and isinstance(e.node.value, ast.Call)]
+                if c['mi'] == 'model' and (c['stochastic'] or c['delay']):
+                    ifc = [src(e.node.value.func) for e in p.events if e.kind == 'stmt' and isinstance(e.node, ast.Assign) and src(e.node.targets[0]) == 'Interface'
+                           and isinstance(e.node.value, ast.Call)]
+                    ifaces.setdefault(bool(c['safe']), set()).add((ifc[-1] if ifc else None, key_of(c)))
                 if c['mi'] in ('model', 'interface') and c['volume'] in ('off', 'true', 'number', 'object'):
                     used.setdefault((c['stochastic'] or c['delay'], c['delay'], c['volume'] in ('true', 'number', 'object')), set()).add(
                         (made[-1] if made else None, key_of(c)))
@@ -212,6 +241,13 @@ def check_lattice(ctx):
         ctx.ob('R7.2-dispatch-table', 'stochastic-or-delay=%d/delay=%d/volume-given=%d' % trip, bool(got) and not wrong, where,
                'every returning path for these options runs %s (%d option combinations)' % (cls_, len({k_ for _, k_ in got})),
                '; '.join('%s runs %s' % w_ for w_ in wrong[:3]) if got else 'no returning path found')
+    # safe mode is the caller's choice for every stochastic run - also the ones that delay=True turns into stochastic runs
+    for safe_, cls_ in ((True, 'SafeModelCSimInterface'), (False, 'ModelCSimInterface')):
+        got = ifaces.get(safe_, set())
+        wrong = sorted((k_, m_) for m_, k_ in got if m_ != cls_)
+        ctx.ob('R7.2-dispatch-table', 'interface/safe=%d' % safe_, bool(got) and not wrong, where,
+               'a stochastic run (stochastic or delay given) on a Model builds a %s (%d option combinations)' % (cls_, len({k_ for _, k_ in got})),
+               '; '.join('%s builds %s' % w_ for w_ in wrong[:3]) if got else 'no returning path found')
     # both / neither must be rejected explicitly
     for c in lattice():
         if c['mi'] in ('both', 'neither') and not c['stochastic'] and not c['delay'] and not c['safe'] \
